@@ -213,7 +213,13 @@ def reader_leaves(body, crates):
     def is_key(e):
         # `*d` where d = first(data)@Some.0   (possibly through a cast-free copy)
         e = strip_ref(e)
-        return e[0] == "proj" and e[1][0] == "call" and e[1][1].endswith("<impl [T]>::first") and tuple(e[2]) == ("@Some", "0")
+        if e[0] == "proj" and e[1][0] == "call" and tuple(e[2]) == ("@Some", "0"):
+            if e[1][1].endswith("<impl [T]>::first"):
+                return True
+            # data.get(0) is the same byte
+            if e[1][1].endswith("<impl [T]>::get") and len(e[1][2]) == 2 and e[1][2][1] == ("const", 0):
+                return True
+        return False
     leaves = []
     for iv, path in enumerate_paths(body, vx, is_key, (0, 255)):
         blocks = [x for x in path if isinstance(x, int)]
@@ -259,7 +265,7 @@ def reader_leaves(body, crates):
                         order, extra = "le", 2
                     elif ga and ga[0] == "zvt_builder::encoding::BigEndian" and ga[1] == "u16":
                         order, extra = "be", 2
-                elif c[1].endswith("<impl [T]>::get") and extra == 0:
+                elif c[1].endswith("<impl [T]>::get") and extra == 0 and not (len(c[2]) == 2 and c[2][1] == ("const", 0)):
                     extra = 1
         # rest offset
         off = rest_offset(pr, rest)
